@@ -21,7 +21,7 @@ RULE = ('expiry-centred histories (populations of 1/99/100/101/250 items on one 
         'effect at one instant of its own [call, return] clock window and an item is deliverable only up to its expiry '
         'instant')
 DISTINCT = ('cells', 'expire_scenarios', 'concurrent_schedules_with_preemption', 'schedules')
-REQUIRED = ('calls_judged', 'concurrent_programs', 'timed_schedules_checked', 'concurrent_rewrites_of_expired_rows', 'expire_calls_over_one_page', 'lookups_of_expired_items', 'lookups_of_live_items',
+REQUIRED = ('phases_with_twin_keys', 'calls_judged', 'concurrent_programs', 'timed_schedules_checked', 'concurrent_rewrites_of_expired_rows', 'expire_calls_over_one_page', 'lookups_of_expired_items', 'lookups_of_live_items',
             'lazy_cull_writes', 'fanout_histories', 'cache_histories', 'shared_instant_batches')
 ASSUMPTIONS = ('virtual clock replaces time.time inside diskcache.core and diskcache.fanout',
                'expiry instants are positive (ttl >= -1e6 s at epoch 1.7e9): non-positive instants are outside the domain',
@@ -73,6 +73,18 @@ def history(dc, sc, res, rng, kind, cfg, label, scale):
             shared = rng.random() < 0.6
             ttl = gen.ttl_exact(gen.pick(rng, [0.5, 5.5, 40.0]))
             keys = ['p%d-%03d' % (phase, i) for i in range(n)]
+            if rng.random() < 0.3:
+                # composite keys, each followed by the bytes key that equals its stored (pickled) form: two different
+                # keys whose rows differ in the raw flag only - what is done to the expiry of one is not done to the other
+                import pickle
+                import pickletools
+                proto = cfg.get('disk_pickle_protocol', pickle.HIGHEST_PROTOCOL)
+                keys = []
+                for i in range(0, n, 2):
+                    keys.append(('p', phase, i))
+                    keys.append(pickletools.optimize(pickle.dumps(keys[-1], protocol=proto)))
+                keys = keys[:max(n, 2)]
+                res.count('phases_with_twin_keys')
             if shared:
                 clock.frozen = True
                 res.count('shared_instant_batches')
